@@ -213,7 +213,7 @@ PROPS = {
         rule=("rapid cases: op in {Storage.Set, Database.SaveEntity}, key from hc's own keys, old value absent/0..4096 bytes, new value 0..4096 bytes, 0..3 other keys; every crash point of each case is executed. "
               "evaluations counts cases; coverage.extra.crash_points_explored counts child executions. Non-trivial: old value present and of a different length than the new one. Distinct by (op, key, old, new)."),
         assumptions=["a crash is a process kill between two file-system calls"],
-        essential_classes=["op:set", "op:save-entity", "op:transport-start", "op:first-start-on-empty-storage", "transport:structure-changed", "old:absent", "new-shorter", "new-longer", "regress"],  # op:set(traced) is reported but not essential: strace may be unavailable in a sandbox
+        essential_classes=["op:set", "op:save-entity", "op:delete-entity", "op:transport-start", "op:first-start-on-empty-storage", "transport:structure-changed", "old:absent", "new-shorter", "new-longer", "regress"],  # op:set(traced) is reported but not essential: strace may be unavailable in a sandbox
         jobs=[
             dict(test="TestC19FirstStart", kind="plain"),
             dict(test="TestC19Regress", kind="plain"),
